@@ -1,7 +1,7 @@
 //! C03 — the namespace is always a well-formed tree (model-free invariant, untyped profile).
 
 use super::common::*;
-use crate::gen::{cfg_strategy, Profile};
+use crate::gen::Profile;
 use crate::hist::*;
 
 pub fn prop() -> HistProp {
@@ -11,7 +11,7 @@ pub fn prop() -> HistProp {
     opts.wellformed = true;
     HistProp {
         opts,
-        cfgs: || crate::gen::with_emb(cfg_strategy(2)),
+        cfgs: || crate::gen::with_emb(crate::gen::cfg_deep()),
         max_ops: 40,
         max_prepop: 8,
         cases_quick: 2500,
